@@ -3,7 +3,7 @@ from __future__ import annotations
 
 from hypothesis import strategies as st
 
-from ..core import Failure, drive, drive_enum
+from ..core import Failure, drive, drive_enum, run_check
 from ..gen import render as RD
 
 ID = "C10"
@@ -293,7 +293,48 @@ def check_edge(case, rec):
     return []
 
 
-PARTS = {"roundtrip": check_roundtrip, "corruption": check_corruption, "edge": check_edge}
+# ------------------------------------------------------------------------------------ what was parsed before does not matter
+
+HISTORY_V3 = [
+    'A = Read(InFileName = data.csv, InFieldName = Elev)\nOut = Write(OutFileName = "out.csv", NewFieldName = n, OutFieldNames = [A])\n',
+    "# only a comment\nX = Cmd(P = [1, 2.5, abc], Q = [k: v])",
+]
+HISTORY_V2 = [
+    "READ(InFileName = data.csv, InFieldName = Elev)\nCVTTOFUZZY(InFieldName = Elev, NewFieldName = Fz)\n",
+    "Named = READ(InFileName = data.csv, InFieldName = Elev)\nNOT(InFieldName = Named, OutFileName = o.csv)\n",
+]
+
+
+def history_cases():
+    for first in ("v3", "v2"):
+        for k in range(2):
+            yield {"first": first, "k": k}
+
+
+def check_history(case, rec):
+    """Parser().parse(text) is a function of the text: parsing files of the other syntax in between (each with its own
+    Parser) changes nothing in what a fresh Parser returns for the same text -- commands, arguments, values, version."""
+    def snap(texts):
+        out = []
+        for t in texts:
+            tree = fresh_parser().parse(t)
+            out.append((RD.parsed_program(tree), getattr(tree, "version", None)))
+        return out
+
+    mine, other = (HISTORY_V3, HISTORY_V2) if case["first"] == "v3" else (HISTORY_V2, HISTORY_V3)
+    before = snap(mine)
+    fresh_parser().parse(other[case["k"]])
+    after = snap(mine)
+    rec.label("history:%s_first" % case["first"])
+    rec.nontrivial_case(case)
+    if before != after:
+        i = [a != b for a, b in zip(before, after)].index(True)
+        return [Failure("history|%s_file_parsed_differently_after_%s_file" % (case["first"], "v2" if case["first"] == "v3" else "v3"),
+                        "%r: before %r, after %r" % (mine[i], before[i], after[i]))]
+    return []
+
+
+PARTS = {"roundtrip": check_roundtrip, "corruption": check_corruption, "edge": check_edge, "history": check_history}
 
 
 def corruption_cases():
@@ -364,6 +405,12 @@ def run_atheris(ctx, rec, runs):
 
 
 def run_shard(ctx, rec):
+    # first, while this process has not parsed anything yet
+    for case in history_cases():
+        for f in run_check(check_history, case, rec):
+            if not rec.is_known(f):
+                rec.add_failure(f, case, "history")
+    rec.parts["history/every_shard"] += 4
     drive(ctx, rec, "roundtrip", RD.programs(), check_roundtrip, ctx.n(3000, 80000), max_novel=8)
     drive(ctx, rec, "corruption", corruption_cases(), check_corruption, ctx.n(1500, 30000))
     drive_enum(ctx, rec, "edge", edge_cases(), check_edge, exhaustive=True)
